@@ -32,6 +32,10 @@ pub struct CircuitRunner<'a, F> {
     non_primitive_op_index_by_id: Vec<Option<usize>>,
     /// Operation-specific execution state (e.g., Poseidon chaining, row records).
     op_states: OpStateMap,
+    /// Whether `set_public_inputs` has completed successfully.
+    public_inputs_set: bool,
+    /// Whether `set_private_inputs` has completed successfully.
+    private_inputs_set: bool,
 }
 
 impl<'a, F: Field> CircuitRunner<'a, F> {
@@ -76,6 +80,8 @@ impl<'a, F: Field> CircuitRunner<'a, F> {
             non_primitive_op_private_data,
             non_primitive_op_index_by_id,
             op_states,
+            public_inputs_set: false,
+            private_inputs_set: false,
         }
     }
 
@@ -95,6 +101,7 @@ impl<'a, F: Field> CircuitRunner<'a, F> {
             let widx = self.circuit.public_rows[i];
             self.set_witness(widx, *value)?;
         }
+        self.public_inputs_set = true;
 
         Ok(())
     }
@@ -117,6 +124,7 @@ impl<'a, F: Field> CircuitRunner<'a, F> {
             let widx = self.circuit.private_input_rows[i];
             self.set_witness(widx, *value)?;
         }
+        self.private_inputs_set = true;
 
         Ok(())
     }
@@ -255,6 +263,23 @@ impl<'a, F: Field> CircuitRunner<'a, F> {
     /// can blindly execute from index 0 to end.
     #[instrument(skip_all, level = "debug")]
     pub fn execute_all(&mut self) -> Result<Vec<AluOpRecord<F>>, CircuitError> {
+        // Inputs that were never supplied must be reported even when `connect` aliases their
+        // slot to a constant (the slot is then filled by the `Const` op and the per-slot
+        // checks below cannot see that the input is missing).
+        if self.circuit.public_flat_len > 0 && !self.public_inputs_set {
+            let witness_id = self.circuit.public_rows.first().copied().unwrap_or(WitnessId(0));
+            return Err(CircuitError::PublicInputNotSet { witness_id });
+        }
+        if self.circuit.private_flat_len > 0 && !self.private_inputs_set {
+            let witness_id = self
+                .circuit
+                .private_input_rows
+                .first()
+                .copied()
+                .unwrap_or(WitnessId(0));
+            return Err(CircuitError::WitnessNotSet { witness_id });
+        }
+
         let mut alu_records = Vec::with_capacity(self.circuit.ops.len());
 
         for op in &self.circuit.ops {
